@@ -430,8 +430,9 @@ def prebuild(ctx):
     c14d_part.prebuild(ctx)
     c14g_part.prebuild(ctx)
     c14l_part.prebuild(ctx)
-    from vlib import c14mm_part, c14_sccp, c14c_part, c14_isel
+    from vlib import c14mm_part, c14_sccp, c14c_part, c14_isel, c14m_part
     c14_isel.prebuild(ctx)
+    c14m_part.prebuild(ctx)
     c14mm_part.prebuild(ctx)
     c14_sccp.prebuild(ctx)
     c14c_part.prebuild(ctx)
@@ -910,55 +911,30 @@ def part_fixpoint(ctx):
 
 def run(ctx):
     import time
+    from vlib import (c14_fixvenom, c14_isel, c14_pass, c14_sccp, c14a_part, c14c_part, c14d_part, c14g_part, c14l_part,
+                      c14m_part, c14mm_part, c14s_part)
     total = 0
     t = time.time()
-    total += wordtie.run(ctx)
-    ctx.log(f"wordtie {time.time()-t:.0f}s"); t = time.time()
-    total += part_eval_kernel(ctx)
-    ctx.log(f"eval kernel {time.time()-t:.0f}s"); t = time.time()
-    total += part_range(ctx)
-    ctx.log(f"range {time.time()-t:.0f}s"); t = time.time()
-    total += part_clients(ctx)
-    ctx.log(f"range clients {time.time()-t:.0f}s"); t = time.time()
-    total += part_memloc(ctx)
-    ctx.log(f"memloc {time.time()-t:.0f}s"); t = time.time()
-    total += part_fixpoint(ctx)
-    ctx.log(f"fixpoint validator {time.time()-t:.0f}s"); t = time.time()
-    from vlib import c14a_part
-    total += c14a_part.part_algebraic(ctx)
-    ctx.log(f"algebraic/sccp {time.time()-t:.0f}s"); t = time.time()
-    from vlib import c14_sccp
-    total += c14_sccp.part_sccp(ctx)
-    ctx.log(f"sccp whole-function validator {time.time()-t:.0f}s"); t = time.time()
-    from vlib import c14d_part
-    total += c14d_part.part_dom(ctx)
-    ctx.log(f"dominators/ssa/dfg {time.time()-t:.0f}s"); t = time.time()
-    from vlib import c14g_part
-    total += c14g_part.part_cfg_passes(ctx)
-    ctx.log(f"cfg passes {time.time()-t:.0f}s"); t = time.time()
-    total += c14g_part.part_asm_cfg(ctx)
-    ctx.log(f"assembly control flow {time.time()-t:.0f}s"); t = time.time()
-    from vlib import c14l_part
-    total += c14l_part.part_small_passes(ctx)
-    ctx.log(f"small rewrite passes {time.time()-t:.0f}s"); t = time.time()
-    from vlib import c14mm_part
-    total += c14mm_part.part_memmerge(ctx)
-    ctx.log(f"memmerging {time.time()-t:.0f}s"); t = time.time()
-    from vlib import c14c_part
-    total += c14c_part.part_copy_passes(ctx)
-    ctx.log(f"copy forwarding / elision passes {time.time()-t:.0f}s"); t = time.time()
-    from vlib import c14s_part
-    total += c14s_part.part_stack(ctx)
-    ctx.log(f"stack model {time.time()-t:.0f}s"); t = time.time()
-    from vlib import c14_pass
-    total += c14_pass.part_passes(ctx)
-    ctx.log(f"passes {time.time()-t:.0f}s"); t = time.time()
-    from vlib import c14_fixvenom
-    total += c14_fixvenom.part_fixvenom(ctx)
-    ctx.log(f"rangefix/venom link {time.time()-t:.0f}s"); t = time.time()
-    from vlib import c14_isel
-    total += c14_isel.part_isel(ctx)
-    ctx.log(f"instruction selection {time.time()-t:.0f}s")
+    # phase A: the parts that regenerate and build the translated kernels (GenEval, GenRange, GenRangeClients,
+    # GenMemLoc) and everything stated directly about them
+    total += ctx.run_groups([
+        [("wordtie", wordtie.run)],
+        [("eval kernel", part_eval_kernel)],
+        [("range", part_range), ("range clients", part_clients), ("memloc", part_memloc), ("fixpoint validator", part_fixpoint)],
+    ])
+    ctx.log(f"phase A {time.time()-t:.0f}s"); t = time.time()
+    # phase B: per-pass parts (independent directories; they only read what phase A / setup built)
+    total += ctx.run_groups([
+        [("algebraic/sccp", c14a_part.part_algebraic), ("sccp whole-function validator", c14_sccp.part_sccp)],
+        [("dominators/ssa/dfg/makessa", c14d_part.part_dom)],
+        [("cfg passes", c14g_part.part_cfg_passes), ("assembly control flow", c14g_part.part_asm_cfg)],
+        [("small rewrite passes", c14l_part.part_small_passes), ("memmerging", c14mm_part.part_memmerge)],
+        [("copy forwarding / elision passes", c14c_part.part_copy_passes), ("load elimination / DSE / CSE", c14m_part.part_mem_passes)],
+        [("stack model", c14s_part.part_stack)],
+        [("passes", c14_pass.part_passes), ("rangefix/venom link", c14_fixvenom.part_fixvenom),
+         ("instruction selection", c14_isel.part_isel)],
+    ])
+    ctx.log(f"phase B {time.time()-t:.0f}s")
     ctx.corr.setdefault("evaluations", 0)
     ctx.corr["evaluations"] += total
     ctx.corr["distinct_nontrivial"] = total
